@@ -129,14 +129,14 @@ theorem disabled_no_effects (σ : Store) (μ : Val) (lg : Logger) (l : Level) (f
 /-- a disabled entry from DPanic upwards: the world changes by the terminal action only -/
 theorem disabled_terminal_only (σ : Store) (μ : Val) (lg : Logger) (l : Level) (fs : List Fld) (w : W)
     (hd : enabled σ lg.core l = false) (hl : dpanicL ≤ l) :
-    lg.log σ μ l fs w = w.emit (match lg.terminal l with | some a => [.term a] | none => []) := by
+    lg.log σ μ l fs w = w.emit (termEvs (lg.terminal l)) := by
   have hg : (decide (l < dpanicL) && !enabled σ lg.core l) = false := by
     have : ¬ l < dpanicL := by unfold dpanicL at *; lomega
     simp [this]
   rw [log_eq_checked]
   simp only [hg, Bool.false_eq_true, if_false, Logger.checked]
   rw [checkEv_disabled σ μ l lg.core w hd, check_disabled σ w.snap l lg.core [] [] hd]
-  cases lg.terminal l <;> simp [CE.write]
+  simp [CE.write]
 
 /-- the reported level denotes the least valid enabled level; `InvalidLevel` when no valid level is enabled -/
 theorem levelOf_min (σ : Store) (c : Core) : clampValid (levelOf σ c) = leastValid (enabled σ c) :=
@@ -212,7 +212,7 @@ theorem frontends_sound : Gen.frontEnds.all FrontEnd.sound = true := by decide
 
 /-- hence, for an enabled entry or one below DPanic, a call through any front end has exactly the effects of `Logger.log` -/
 theorem frontend_eq_log (fe : FrontEnd) (hfe : fe ∈ Gen.frontEnds) (σ : Store) (μ : Val) (lg : Logger) (l : Level)
-    (ha : fe.admits l = true) (h : l < dpanicL ∨ enabled σ lg.core l = true) (fs : List Fld) (w : W) :
+    (ha : fe.takes l = true) (h : l < dpanicL ∨ enabled σ lg.core l = true) (fs : List Fld) (w : W) :
     fe.run σ μ lg l fs w = lg.log σ μ l fs w := by
   have hx : fe.sound = true := List.all_eq_true.mp frontends_sound fe hfe
   rw [log_eq_checked]
@@ -225,13 +225,13 @@ theorem frontend_eq_log (fe : FrontEnd) (hfe : fe ∈ Gen.frontEnds) (σ : Store
 theorem frontend_disabled_no_delivery (fe : FrontEnd) (σ : Store) (μ : Val) (lg : Logger) (l : Level)
     (fs : List Fld) (w : W) (hd : enabled σ lg.core l = false) :
     fe.run σ μ lg l fs w = w ∨
-    fe.run σ μ lg l fs w = w.emit (match lg.terminal l with | some a => [.term a] | none => []) := by
+    fe.run σ μ lg l fs w = w.emit (termEvs (lg.terminal l)) := by
   unfold FrontEnd.run
   split
   · right
     simp only [Logger.checked]
     rw [checkEv_disabled σ μ l lg.core w hd, check_disabled σ w.snap l lg.core [] [] hd]
-    cases lg.terminal l <;> simp [CE.write]
+    simp [CE.write]
   · left; rfl
 
 /-- non-vacuity: a three-level tree where the same leaf id is reached only through the open branch -/
